@@ -484,7 +484,9 @@ struct Env {
     listeners: Vec<LInfo>,
     clients: Vec<Client>,
     accepted: Vec<usize>,            // cids in accept order
-    dispatched: Vec<(usize, usize)>, // (cid, worker idx) in dispatch order
+    dispatched: Vec<(usize, usize, usize)>, // (cid, worker idx, worker generation) in dispatch order
+    replaced: Vec<usize>,                   // fault reports already answered by a Replace
+    skipped: Vec<String>,                   // environment actions that were not applicable
     dclean: Vec<bool>,               // per dispatch: no disturbance of the rotation right after it
     in_hand: Option<usize>,
     points: Vec<(String, usize)>,
@@ -493,11 +495,11 @@ struct Env {
     turns: usize,
     max_turns: usize,
     faults: Vec<usize>,
+    cmd_rx: UnboundedReceiver<ServerCommand>,
 }
 
 pub struct Sim {
     st: Stepped,
-    cmd_rx: UnboundedReceiver<ServerCommand>,
     env: Rc<RefCell<Env>>,
     pub exited: bool,
     pub panicked: Option<String>,
@@ -530,7 +532,7 @@ pub struct Snap {
     pub connect_errno: Vec<i32>,
     pub closed: Vec<bool>,
     pub accepted: Vec<usize>,
-    pub dispatched: Vec<(usize, usize)>,
+    pub dispatched: Vec<(usize, usize, usize)>,
     pub in_hand: i64,
     /// service-side: (cid, worker, token, instance, worker generation) in call order
     pub calls: Vec<(i64, usize, usize, usize, usize)>,
@@ -543,6 +545,8 @@ pub struct Snap {
     pub panicked: String,
     pub points: Vec<(String, usize)>,
     pub anchors_missed: usize,
+    pub replaced: Vec<usize>,
+    pub skipped: Vec<String>,
 }
 
 fn interest_name(i: &WakerInterest) -> String {
@@ -567,6 +571,15 @@ impl Env {
                 tokio::task::yield_now().await;
             }
         });
+    }
+
+    /// drains the server command channel (WorkerFaulted reports of the accept thread)
+    fn collect_faults(&mut self) {
+        while let Ok(cmd) = self.cmd_rx.try_recv() {
+            if let ServerCommand::WorkerFaulted(idx) = cmd {
+                self.faults.push(idx);
+            }
+        }
     }
 
     fn mark_last_dispatch_dirty(&mut self) {
@@ -638,6 +651,15 @@ impl Env {
                 self.mark_last_dispatch_dirty();
             }
             Act::Replace(i) => {
+                // the server replaces a worker only in response to a WorkerFaulted(i) report
+                self.collect_faults();
+                let reported = self.faults.iter().filter(|f| **f == *i).count();
+                let answered = self.replaced.iter().filter(|f| **f == *i).count();
+                if reported <= answered || self.workers[*i].built.is_some() {
+                    self.skipped.push(format!("Replace({i})"));
+                    return;
+                }
+                self.replaced.push(*i);
                 let gen = self.workers[*i].gen + 1;
                 let mut built = self.build_worker(*i, gen);
                 let handle = built.accept.take().unwrap();
@@ -831,7 +853,8 @@ impl Env {
             "sent" => {
                 self.turns = 0;
                 if let Some(cid) = self.in_hand.take() {
-                    self.dispatched.push((cid, arg));
+                    let gen = self.workers.get(arg).map(|w| w.gen).unwrap_or(0);
+                    self.dispatched.push((cid, arg, gen));
                     self.dclean.push(true);
                 }
             }
@@ -923,6 +946,8 @@ impl Sim {
             clients: vec![],
             accepted: vec![],
             dispatched: vec![],
+            replaced: vec![],
+            skipped: vec![],
             dclean: vec![],
             in_hand: None,
             points: vec![],
@@ -931,6 +956,7 @@ impl Sim {
             turns: 0,
             max_turns: 4 * cfg.workers + 8,
             faults: vec![],
+            cmd_rx,
         };
         let mut handles = vec![];
         for idx in 0..cfg.workers {
@@ -950,7 +976,6 @@ impl Sim {
         INJECT.with(|q| q.borrow_mut().clear());
         Ok(Sim {
             st,
-            cmd_rx,
             env: Rc::new(RefCell::new(env)),
             exited: false,
             panicked: None,
@@ -1041,11 +1066,7 @@ impl Sim {
     }
 
     fn collect_faults(&mut self) {
-        while let Ok(cmd) = self.cmd_rx.try_recv() {
-            if let ServerCommand::WorkerFaulted(idx) = cmd {
-                self.env.borrow_mut().faults.push(idx);
-            }
-        }
+        self.env.borrow_mut().collect_faults();
     }
 
     pub fn woken_workers(&self) -> Vec<usize> {
@@ -1150,6 +1171,8 @@ impl Sim {
             .collect();
         s.faults = e.faults.clone();
         s.points = std::mem::take(&mut e.points);
+        s.replaced = e.replaced.clone();
+        s.skipped = e.skipped.clone();
         s
     }
 
